@@ -38,7 +38,8 @@ func (v *Verdict) Tag(t string) { v.Tags = append(v.Tags, t) }
 // Gen draws everything from one stream.
 type Gen struct {
 	*simrt.Rng
-	Tier string
+	Tier        string
+	filterNames bool // Predef may draw names that are topic filters (see PredefWithFilters)
 }
 
 func (g *Gen) Pick(n int) int { return g.Intn(n) }
